@@ -18,7 +18,7 @@ RULE = ("Hypothesis generates models (N<=4 quick, <=5 thorough) with beta in [0.
 ASSUMPTIONS = ["bounds derived in DESIGN.md §4 C19 (Cauchy-Schwarz on Tr c+c = dim/2; Hermite-Genocchi bound of the divided difference)",
                "sum_chains|M| is taken from the numpy reference", "spectra with levels 1e-10..1e-6 apart are discarded"]
 CONFIG = {
-    "quick": {"flavours": ["real", "complex"], "shards": 8, "examples": 100, "min_nontrivial": 40, "budget_s": 110},
+    "quick": {"flavours": ["real", "complex"], "shards": 8, "examples": 350, "min_nontrivial": 40, "budget_s": 120},
     "thorough": {"flavours": ["real", "complex"], "shards": 16, "examples": 1200, "min_nontrivial": 800, "budget_s": 3300},
 }
 REQUIRED_CLASSES = {"quick": ["eps=0", "some-discarded", "all-retained", "tight-bound", "retruncated-with-smaller-eps", "truncated-offdiag-susc"],
